@@ -27,7 +27,14 @@ fn main() {
         progs.push((format!("g{i}"), gen_program(seed, n)));
     }
     // mover programs: every barriered store path, validated under slow marking from many start points
-    let movers: Vec<(String, String)> = (0..4).map(|k| (format!("mover{k}"), mover_program(k, 5))).collect();
+    let movers: Vec<(String, String)> = (0..9).map(|k| (format!("mover{k}"), mover_program(k, 5))).collect();
+    for (name, src) in movers.iter().chain(progs.iter()) {
+        if abra_core::compile_bytecode("main.abra", provider(src, &[])).is_err() {
+            ctx.notes.push(format!("GENERATOR BUG: program {name} is rejected by the compiler and was skipped"));
+        }
+    }
+    let movers: Vec<(String, String)> = movers.into_iter().filter(|(_, src)| abra_core::compile_bytecode("main.abra", provider(src, &[])).is_ok()).collect();
+    progs.retain(|(_, src)| abra_core::compile_bytecode("main.abra", provider(src, &[])).is_ok());
     for (name, src) in movers.iter() {
         let stride = if quick { 4 } else { 1 };
         let mut st = 0u64;
